@@ -9,26 +9,20 @@ abbrev Member := List UInt8
 structure DrvState where
   ring : Ring Member
 
-/-- the points of a member under the regenerated parameters; `none` = a replica format the model does not know -/
-def pointsOf? (P : Params) : Option (Member → List Nat) :=
-  match parseFmt P.fmtAdd, parseFmt P.fmtRemove with
-  | some sa, some sr => if sa = sr then some (replicaPoints P sa) else none
-  | _, _ => none
-
 /-- `new` → empty ring; `add <hex>` / `remove <hex>` → `ok`; `get <hex>` → `node=<hex>` | `panic` -/
 def drvStep (s : DrvState) (line : String) : DrvState × String :=
-  match pointsOf? params with
+  match concreteCfg? params with
   | none => (s, "bad-params")
-  | some pts =>
+  | some K =>
     match words line with
     | ["new"] => ({ ring := Ring.empty }, "ok")
     | ["add", m] =>
       match unhex? m with
-      | some m => ({ ring := addNode pts s.ring m }, "ok")
+      | some m => ({ ring := addNode K.pts s.ring m }, "ok")
       | none => (s, "bad-op")
     | ["remove", m] =>
       match unhex? m with
-      | some m => ({ ring := removeNode params.guarded pts s.ring m }, "ok")
+      | some m => ({ ring := removeNode K s.ring m }, "ok")
       | none => (s, "bad-op")
     | ["get", k] =>
       match unhex? k with
